@@ -565,6 +565,25 @@ Proof.
   destruct t as [|y t']; cbn [map]; [exact I|]. rewrite (res_less_rid first last x y (g x) (g y)); auto.
 Qed.
 
+(* asymmetry of the comparator with the rank guard of /repo fc14842 (either value of the flag) *)
+Lemma legacy_less_g_asym g first last a b :
+  LegacySort.legacy_less_g g first last a b = true -> LegacySort.legacy_less_g g first last b a = false.
+Proof.
+  unfold LegacySort.legacy_less_g. rewrite (LegacySortProofs.gvk_eqb_sym (LegacySort.id_gvk b)).
+  destruct (LegacySort.gvk_eqb (LegacySort.id_gvk a) (LegacySort.id_gvk b)); cbn [negb].
+  - apply StrOrder.sltb_asym.
+  - unfold LegacySort.gvk_less_than_g.
+    set (i1 := LegacySort.type_order first last (LegacySort.g_kind (LegacySort.id_gvk a))).
+    set (i2 := LegacySort.type_order first last (LegacySort.g_kind (LegacySort.id_gvk b))).
+    rewrite (Z.eqb_sym i2 i1).
+    destruct (Z.eqb i1 i2) eqn:E; cbn [negb].
+    + apply Z.eqb_eq in E. rewrite <- E.
+      rewrite (andb_comm (String.eqb (LegacySort.g_kind (LegacySort.id_gvk b)) _)).
+      rewrite (orb_comm (String.eqb (LegacySort.g_group (LegacySort.id_gvk b)) _)).
+      match goal with |- (if ?c then _ else _) = true -> _ => destruct c end; apply StrOrder.sltb_asym.
+    + intros H. apply Z.ltb_lt in H. apply Z.ltb_ge. lia.
+Qed.
+
 Lemma sorted_after_legacy first last m2l m3 :
   sort_resources (PSortLegacy first last) m2l = Ok m3 -> order_total first last m3 ->
   distinct_ids m3 /\ Permutation m3 m2l /\ adj_less (res_less first last) m3.
@@ -572,7 +591,7 @@ Proof.
   cbn [sort_resources]. intros H T. apply append_all_spec in H as [E D]. cbn [app] in E.
   specialize (D I). split; [exact D|]. split; [rewrite E; apply isort_perm|].
   apply weakly_adj; auto. rewrite E. apply isort_sorted.
-  intros a b _ _. unfold res_less. apply LegacySortProofs.less_asym.
+  intros a b _ _. unfold res_less. apply legacy_less_g_asym.
 Qed.
 
 (* ----- the second build ----- *)
@@ -807,7 +826,8 @@ Section NrPure.
       destruct (find_field "name" kvs); [|discriminate].
       rewrite select_referral_history_free in E.
       - cbn [bind] in E. inv E. reflexivity.
-      - unfold mapping_cands. destruct (find_field "namespace" kvs); [|exact H].
+      - unfold mapping_cands. destruct (find_field "namespace" kvs) as [nsn|]; [|exact H].
+        destruct (is_null nsn || String.eqb (node_value nsn) ""); [exact H|].
         apply by_namespace_history_free. exact H. }
     unfold nr_set. destruct (is_null n); [intros E; inv E; reflexivity|].
     destruct n as [t s v|kvs|es]; [apply S|apply M|].
